@@ -9,8 +9,8 @@ COMMON_NOTE = ("Trusted: Lean 4.33.0 kernel; axioms propext, Classical.choice, Q
 #          a new chain with other parameters every 8 round trips)
 # replica: ops = number of blocks of the one history that all four replicas execute
 SUITES = {
-    "genesis": dict(quick_ops=120, thorough_ops=600, driver="genesis", accept_floor=50),
-    "replica": dict(quick_ops=240, thorough_ops=1000, driver="replica", accept_floor=50),
+    "genesis": dict(quick_ops=240, thorough_ops=600, driver="genesis", accept_floor=50),
+    "replica": dict(quick_ops=360, thorough_ops=1000, driver="replica", accept_floor=50),
 }
 
 _C18_ASSUME = [
